@@ -177,6 +177,9 @@ def run_case(case):
                 out["violations"].append({"kind": "rebuilt_relation_not_equal", "detail": f"{model.show(ent['prog'])}: {short(again, 200)} vs {short(ent['rel'], 200)}"})
             elif safe_hash(again) != safe_hash(ent["rel"]):
                 out["violations"].append({"kind": "rebuilt_relation_hash_differs", "detail": model.show(ent["prog"])})
+        for bad in b.sweep_expressions()[:2]:
+            out["violations"].append({"kind": "expression_required_columns_changed_during_history", "detail": bad})
+        c["expression_objects_swept"] = c.get("expression_objects_swept", 0) + len(b.expr_cache)
         eff = [k for k in kinds if not k.endswith("_rejected")]
         if len(eff) >= 10:
             sig = ",".join(f"{k}{min(eff.count(k), 9)}" for k in sorted(set(eff)))
